@@ -87,6 +87,38 @@ structure Ext.Lawful (E : Ext K) : Prop where
   rem : ∀ p m, denote m ≠ 0 → denote (E.rem p m) = denote p % denote m
   redNtt : ∀ p m, denote m ≠ 0 → denote m ∣ denote (E.redNtt p m) - denote p
 
+/-- coefficient list of a polynomial -/
+noncomputable def ofPoly (q : K[X]) : List K := (List.range (q.natDegree + 1)).map q.coeff
+
+theorem denote_ofPoly (q : K[X]) : denote (ofPoly q) = q := by
+  ext i
+  rw [coeff_denote, ofPoly]
+  by_cases hi : i < q.natDegree + 1
+  · rw [getD_of_lt _ _ _ (by simpa using hi)]; simp
+  · rw [getD_of_ge _ _ _ (by simp; omega), coeff_eq_zero_of_natDegree_lt (by omega)]
+
+/-- the contracts are satisfiable: the routines defined by their specification -/
+noncomputable def Ext.ideal : Ext K where
+  mul a b := ofPoly (denote a * denote b)
+  parBatchMul _ fs := ofPoly (fs.map denote).prod
+  rem p m := ofPoly (denote p % denote m)
+  redNtt p m := ofPoly (denote p % denote m)
+  ntt xs := xs
+  intt xs := xs
+
+theorem Ext.ideal_lawful : (Ext.ideal : Ext K).Lawful where
+  mul a b := denote_ofPoly _
+  parBatchMul t fs := denote_ofPoly _
+  rem p m _ := denote_ofPoly _
+  redNtt p m _ := by
+    show denote m ∣ denote (ofPoly (denote p % denote m)) - denote p
+    rw [denote_ofPoly]
+    exact ⟨-(denote p / denote m), by
+      have := EuclideanDomain.div_add_mod (denote p) (denote m)
+      have h2 : denote p % denote m = denote p - denote m * (denote p / denote m) := by
+        rw [eq_sub_iff_add_eq, add_comm]; exact this
+      rw [h2]; ring⟩
+
 /-! ### smart zerofier: the in-place loop multiplies by `X - r` -/
 
 /-- `[prev - r a₀, a₀ - r a₁, …, a_{k-1}]` -/
@@ -1038,5 +1070,211 @@ theorem lagrangeInterpolateWith_spec (T : Nat) (domain values : List K) (hn : do
     exact hn
 
 end lagrange2
+
+
+/-! ### divide and conquer interpolation `f = L·Z_R + R·Z_L`, the dispatchers -/
+section dc
+variable {E : Ext K} (hE : E.Lawful)
+include hE
+
+/-- `par_batch_evaluate` returns for every thread count `≥ 1` -/
+theorem parBatchEvaluateWith_total (R RT T threads : Nat) (hRT : 0 < RT) (hT : 2 ≤ T) (hth : 0 < threads)
+    (p domain : List K) :
+    parBatchEvaluateWith FK E R RT T threads p domain = some (domain.map (fun x => (denote p).eval x)) := by
+  have hsome : (parBatchEvaluateWith FK E R RT T threads p domain).isSome := by
+    unfold parBatchEvaluateWith
+    split
+    · simp
+    · next hne =>
+      simp only
+      have hdom : domain ≠ [] := by
+        intro h; subst h; simp at hne
+      have hlen : 0 < domain.length := List.length_pos_iff.2 hdom
+      have hk : 0 < ceilDiv domain.length threads := by
+        unfold ceilDiv
+        apply Nat.div_pos <;> omega
+      rw [if_neg (by simp; omega)]
+      have : ((chunks (ceilDiv domain.length threads) domain).mapM (batchEvaluateWith FK E R RT T p)).isSome := by
+        apply mapM_option_isSome
+        intro ch _
+        rw [batchEvaluateWith_total root hE R RT T hRT hT p ch]; rfl
+      obtain ⟨parts, hp⟩ := Option.isSome_iff_exists.1 this
+      simp [hp]
+  obtain ⟨out, hout⟩ := Option.isSome_iff_exists.1 hsome
+  rw [hout, parBatchEvaluateWith_sound root hE R RT T threads p domain out hout]
+
+omit hE in
+theorem zip_zipWith_map {α β : Type} (g : α → β) (m : β → β → β) : ∀ (xs : List α) (ys : List β),
+    xs.zip (List.zipWith m ys (xs.map g)) = (xs.zip ys).map (fun p => (p.1, m p.2 (g p.1))) := by
+  intro xs
+  induction xs with
+  | nil => intro ys; simp
+  | cons x xs ih =>
+    intro ys
+    cases ys with
+    | nil => simp
+    | cons y ys => simp [ih]
+
+omit hE in
+theorem batchInversion_map (xs : List K) (h : ∀ x ∈ xs, x ≠ 0) :
+    batchInversion FK xs = some (xs.map (fun x => x⁻¹)) := by
+  unfold batchInversion
+  have : xs.any (FK).isZero = false := by
+    rw [List.any_eq_false]
+    intro x hx
+    simpa using h x hx
+  rw [this]; rfl
+
+/-- evaluator contract used by the interpolation routines -/
+def BevOK (bev : List K → List K → Option (List K)) : Prop :=
+  ∀ p d, bev p d = some (d.map (fun x => (denote p).eval x))
+
+/-- interpolator contract on a class of domains -/
+def InterpOK (interp : List K → List K → Option (List K)) (bound : Nat) : Prop :=
+  ∀ d v, d ≠ [] → d.length < bound → d.Nodup → d.length = v.length →
+    ∃ f, interp d v = some f ∧ Interpolates d v (denote f)
+
+omit hE in
+/-- one half of the divide-and-conquer identity: the half interpolant through the rescaled targets, times the
+    zerofier of the other half, takes the original values on its own half -/
+theorem half_eval (own other : List K) (vals : List K) (hdisj : ∀ x ∈ own, x ∉ other)
+    (hi : K[X]) (hhi : Interpolates own
+      (List.zipWith (· * ·) vals ((own.map (fun x => (zpoly other).eval x)).map (fun x => x⁻¹))) hi) :
+    ∀ p ∈ own.zip vals, hi.eval p.1 * (zpoly other).eval p.1 = p.2 := by
+  intro p hp
+  have hmem : (p.1, p.2 * ((zpoly other).eval p.1)⁻¹) ∈
+      own.zip (List.zipWith (· * ·) vals ((own.map (fun x => (zpoly other).eval x)).map (fun x => x⁻¹))) := by
+    rw [List.map_map, zip_zipWith_map]
+    exact List.mem_map.2 ⟨p, hp, rfl⟩
+  have := hhi.2 _ hmem
+  simp only at this
+  rw [this]
+  have hne : (zpoly other).eval p.1 ≠ 0 := by
+    rw [Ne, eval_zpoly_eq_zero_iff]
+    exact hdisj p.1 (List.of_mem_zip hp).1
+  field_simp
+
+/-- body of `fast_interpolate` / `par_fast_interpolate`, any zerofier cut-off `≥ 2` -/
+theorem fastInterpolateStep_spec (zfT : Nat) (hT : 2 ≤ zfT) (interp : List K → List K → Option (List K))
+    (bev : List K → List K → Option (List K)) (hbev : BevOK bev) (domain values : List K)
+    (hinterp : InterpOK interp domain.length)
+    (hne : domain ≠ []) (hn : domain.Nodup) (hl : domain.length = values.length) :
+    ∃ f, fastInterpolateStep FK E zfT interp bev domain values = some f ∧ Interpolates domain values (denote f) := by
+  unfold fastInterpolateStep
+  by_cases h1 : domain.length = 1
+  · -- a single point: the constant polynomial
+    obtain ⟨x, rfl⟩ := List.length_eq_one_iff.1 h1
+    obtain ⟨v, rfl⟩ := List.length_eq_one_iff.1 (hl ▸ h1 : values.length = 1)
+    refine ⟨[v], by simp, ?_, ?_⟩
+    · simp only [denote_cons, denote_nil, mul_zero, add_zero, List.length_singleton, Nat.cast_one]
+      exact lt_of_le_of_lt degree_C_le (by norm_num)
+    · intro p hp; simp at hp; subst hp; simp
+  · have hlen : 2 ≤ domain.length := by
+      have := List.length_pos_iff.2 hne; omega
+    rw [if_neg (by simpa using h1)]
+    simp only
+    rw [if_neg (by omega)]
+    set mid := domain.length / 2 with hmid
+    have hmid1 : 1 ≤ mid := by omega
+    have hmid2 : mid < domain.length := by omega
+    obtain ⟨lz, hlz⟩ := Option.isSome_iff_exists.1 (zerofierWith_total root (E := E) zfT hT (domain.take mid))
+    obtain ⟨rz, hrz⟩ := Option.isSome_iff_exists.1 (zerofierWith_total root (E := E) zfT hT (domain.drop mid))
+    have hlzd := zerofierWith_sound root hE zfT _ _ hlz
+    have hrzd := zerofierWith_sound root hE zfT _ _ hrz
+    have hsplit : domain.take mid ++ domain.drop mid = domain := List.take_append_drop mid domain
+    have hnd : (domain.take mid ++ domain.drop mid).Nodup := by rw [hsplit]; exact hn
+    obtain ⟨hnl, hnr, hdisj⟩ := List.nodup_append.1 hnd
+    have hdisjL : ∀ x ∈ domain.take mid, x ∉ domain.drop mid := fun x hx hx' => hdisj x hx x hx' rfl
+    have hdisjR : ∀ x ∈ domain.drop mid, x ∉ domain.take mid := fun x hx hx' => hdisj x hx' x hx rfl
+    -- offsets are non-zero, batch inversion succeeds
+    have hloi : batchInversion FK ((domain.take mid).map (fun x => (denote rz).eval x))
+        = some (((domain.take mid).map (fun x => (denote rz).eval x)).map (fun x => x⁻¹)) := by
+      apply batchInversion_map
+      intro y hy
+      obtain ⟨x, hx, rfl⟩ := List.mem_map.1 hy
+      rw [hrzd, Ne, eval_zpoly_eq_zero_iff]; exact hdisjL x hx
+    have hroi : batchInversion FK ((domain.drop mid).map (fun x => (denote lz).eval x))
+        = some (((domain.drop mid).map (fun x => (denote lz).eval x)).map (fun x => x⁻¹)) := by
+      apply batchInversion_map
+      intro y hy
+      obtain ⟨x, hx, rfl⟩ := List.mem_map.1 hy
+      rw [hlzd, Ne, eval_zpoly_eq_zero_iff]; exact hdisjR x hx
+    have hll : (domain.take mid).length = mid := by simp; omega
+    have hrl : (domain.drop mid).length = domain.length - mid := by simp
+    obtain ⟨li, hli, hliI⟩ := hinterp (domain.take mid)
+      (List.zipWith (FK).mul (values.take mid)
+        (((domain.take mid).map (fun x => (denote rz).eval x)).map (fun x => x⁻¹)))
+      (by intro h; rw [h] at hll; simp at hll; omega) (by omega) hnl
+      (by simp; omega)
+    obtain ⟨ri, hri, hriI⟩ := hinterp (domain.drop mid)
+      (List.zipWith (FK).mul (values.drop mid)
+        (((domain.drop mid).map (fun x => (denote lz).eval x)).map (fun x => x⁻¹)))
+      (by intro h; rw [h] at hrl; simp at hrl; omega) (by omega) hnr
+      (by simp; omega)
+    refine ⟨add FK (E.mul li rz) (E.mul ri lz), ?_, ?_, ?_⟩
+    · simp only [hlz, hrz, hbev rz _, hbev lz _, Option.bind_eq_bind, Option.bind_some, hloi, hli, hroi, hri,
+        Option.pure_def]
+    · -- degree
+      rw [denote_add, hE.mul, hE.mul, hlzd, hrzd]
+      have dl : (denote li * zpoly (domain.drop mid)).degree < domain.length := by
+        rw [degree_mul, degree_zpoly, hrl]
+        have := hliI.1
+        rw [hll] at this
+        have h2 : ((mid : ℕ) : WithBot ℕ) + ((domain.length - mid : ℕ) : WithBot ℕ) = (domain.length : WithBot ℕ) := by
+          rw [← Nat.cast_add]; congr 1; omega
+        rw [← h2]
+        exact WithBot.add_lt_add_right (by simp) this
+      have dr : (denote ri * zpoly (domain.take mid)).degree < domain.length := by
+        rw [degree_mul, degree_zpoly, hll]
+        have := hriI.1
+        rw [hrl] at this
+        have h2 : ((domain.length - mid : ℕ) : WithBot ℕ) + ((mid : ℕ) : WithBot ℕ) = (domain.length : WithBot ℕ) := by
+          rw [← Nat.cast_add]; congr 1; omega
+        rw [← h2]
+        exact WithBot.add_lt_add_right (by simp) this
+      exact lt_of_le_of_lt (degree_add_le _ _) (max_lt dl dr)
+    · -- values
+      intro p hp
+      have hzip : domain.zip values = (domain.take mid).zip (values.take mid) ++ (domain.drop mid).zip (values.drop mid) := by
+        conv_lhs => rw [← hsplit, ← List.take_append_drop mid values]
+        rw [List.zip_append]
+        simp; omega
+      rw [hzip, List.mem_append] at hp
+      rw [denote_add, hE.mul, hE.mul, hlzd, hrzd, eval_add, eval_mul, eval_mul]
+      have hliI' : Interpolates (domain.take mid)
+          (List.zipWith (· * ·) (values.take mid)
+            (((domain.take mid).map (fun x => (zpoly (domain.drop mid)).eval x)).map (fun x => x⁻¹))) (denote li) := by
+        rw [← hrzd]; exact hliI
+      have hriI' : Interpolates (domain.drop mid)
+          (List.zipWith (· * ·) (values.drop mid)
+            (((domain.drop mid).map (fun x => (zpoly (domain.take mid)).eval x)).map (fun x => x⁻¹))) (denote ri) := by
+        rw [← hlzd]; exact hriI
+      rcases hp with hp | hp
+      · rw [half_eval _ _ _ hdisjL _ hliI' p hp,
+          (eval_zpoly_eq_zero_iff (domain.take mid) p.1).2 (List.of_mem_zip hp).1]
+        ring
+      · rw [half_eval _ _ _ hdisjR _ hriI' p hp,
+          (eval_zpoly_eq_zero_iff (domain.drop mid) p.1).2 (List.of_mem_zip hp).1]
+        ring
+
+/-- `interpolate` / `par_interpolate`: the dispatcher with any cut-off `cut`, any evaluator satisfying its contract -/
+theorem interpolateFuel_spec (t : Thr) (hT : 2 ≤ t.zf) (cut : Nat) (bev : List K → List K → Option (List K))
+    (hbev : BevOK bev) : ∀ (fuel : Nat), InterpOK (interpolateFuel FK E t cut bev fuel) fuel := by
+  intro fuel
+  induction fuel with
+  | zero => intro d v _ h; omega
+  | succ fuel ih =>
+    intro d v hne hlen hn hl
+    rw [interpolateFuel]
+    rw [if_neg (by simpa using hne), if_neg (by simpa using hl)]
+    split
+    · obtain ⟨f, hf, _, hI⟩ := lagrangeInterpolateWith_spec root hE t.zf d v hn hl
+        (zerofierWith_total root (E := E) t.zf hT d)
+      exact ⟨f, hf, hI⟩
+    · apply fastInterpolateStep_spec root hE t.zf hT _ bev hbev d v _ hne hn hl
+      intro d' v' hne' hlen' hn' hl'
+      exact ih d' v' hne' (by omega) hn' hl'
+
+end dc
 
 end TF.Model.PolyI
